@@ -384,7 +384,7 @@ def gen_scenario(v: Dict) -> Dict:
 def _variants():
     out = []
     base = dict(topo="routed", flatten=False, masking=False, scan=True, nmne=True, traffic=False, access=False, dur=1, ep_len=6)
-    out.append(dict(base, host_overrides={"client_1": {"applications_requires_scan": False},
+    out.append(dict(base, access=True, host_overrides={"client_1": {"applications_requires_scan": False},
                                           "database_server": {"services_requires_scan": False},
                                           "backup_server": {"file_system_requires_scan": False},
                                           "client_2": {"include_nmne": False, "num_nics": 1}}))
